@@ -49,6 +49,7 @@ VARIABLES
   nu,           \* next free uid
   der,          \* [1..MaxUid -> 0..MaxUid]  the uid a line was derived from by a "mod" edit (0 = typed afresh)
   dirty,        \* [File -> Author \cup {None}]  whose un-checkpointed edits a file holds
+  ops,          \* kinds of state-moving commands run since the last commit (decides which clauses judge it)
   wl,           \* [0..MaxCommit -> WL]      working log per base
   ini,          \* [0..MaxCommit -> [File -> LineMap]]   INITIAL per base
   notes,        \* [1..MaxCommit -> Note]
@@ -61,7 +62,7 @@ VARIABLES
   taint,        \* trace mode: deviation names that fired with effect in the current run
   hist          \* gen mode: replay script (hidden by VIEW)
 
-gitvars == <<wt, idx, tree, par, ckind, nc, head, stash, truth, nu, der, dirty>>
+gitvars == <<wt, idx, tree, par, ckind, nc, head, stash, truth, nu, der, dirty, ops>>
 aivars  == <<wl, ini, isnap, notes, snote, blame>>
 vars    == <<gitvars, aivars, l, viol, drift, taint, hist>>
 view    == <<gitvars, aivars, taint>>
@@ -139,8 +140,11 @@ StageHunk(h, i, w, k) ==
 -----------------------------------------------------------------------------
 (* git-ai data shapes *)
 
-EmptyEnt == [has |-> FALSE, snap |-> EmptyC, attr |-> <<>>, va |-> <<>>, vaset |-> FALSE, touched |-> FALSE]
-EmptyWL  == [ent |-> [f \in File |-> EmptyEnt], ai |-> FALSE, sess |-> {}]
+EmptyEnt == [has |-> FALSE, snap |-> EmptyC, attr |-> <<>>, va |-> <<>>, vaset |-> FALSE, touched |-> FALSE, by |-> {}]
+EmptyWL  == [ent |-> [f \in File |-> EmptyEnt]]
+\* sessions whose AI checkpoints still have an entry, and whether any AI checkpoint is left
+WLsess(W) == UNION { W.ent[f].by : f \in File }
+WLai(W)   == WLsess(W) # {}
 NoNote   == [has |-> FALSE, files |-> NoMaps, prompts |-> {}, wf |-> TRUE]
 HeadTree == IF head = 0 THEN AllEmpty ELSE tree[head]
 TreeOf(c) == IF c = 0 THEN AllEmpty ELSE tree[c]
@@ -175,7 +179,7 @@ Transfer(D, old, oattr, new, a) ==
 CkFiles(W, I, ht, work, index, reported, pre) ==
   LET trk == reported \cup { f \in File : I[f] # <<>> } \cup { f \in File : W.ent[f].has }
       untracked(f) == index[f] = EmptyC /\ ht[f] = EmptyC /\ work[f] # EmptyC
-      st  == { f \in File : (work[f] # ht[f] \/ index[f] # ht[f]) /\ ~(pre /\ ~W.ai /\ untracked(f)) }
+      st  == { f \in File : (work[f] # ht[f] \/ index[f] # ht[f]) /\ ~(pre /\ ~WLai(W) /\ untracked(f)) }
   IN  IF trk = {} THEN st ELSE trk \cap st
 
 \* entry of file f after a checkpoint by author a (kind "ai" | "human"); result = prior means nothing written
@@ -185,9 +189,10 @@ CkEnt(D, prior, in0, isf, htf, cur, kind, a, pre) ==
       \* an entry that carries attribution data supersedes what earlier entries said about the file
       \* (virtual_attribution.rs:from_just_working_log; the human-only fast path writes no attribution data)
       mk(attr) == [has |-> TRUE, snap |-> cur, attr |-> Trim(attr), va |-> Trim(attr), vaset |-> TRUE,
-                   touched |-> prior.touched \/ isAI \/ HasAI(attr)]
+                   touched |-> prior.touched \/ isAI \/ HasAI(attr),
+                   by |-> IF isAI THEN prior.by \cup {a} ELSE prior.by]
       mkBare   == [has |-> TRUE, snap |-> cur, attr |-> <<>>, va |-> prior.va, vaset |-> prior.vaset,
-                   touched |-> prior.touched]
+                   touched |-> prior.touched, by |-> prior.by]
   IN  CASE ~isAI /\ ~tch /\ pre -> prior
         [] ~isAI /\ ~tch ->
               IF cur = (IF prior.has THEN prior.snap ELSE htf) THEN prior ELSE mkBare
@@ -208,14 +213,11 @@ CkEnt(D, prior, in0, isf, htf, cur, kind, a, pre) ==
                    ELSE mk(Transfer(D, htf, <<>>, cur, a))
 
 CkResult(D, W, I, IS, ht, work, index, kind, a, reported, pre) ==
-  LET skipAll == pre /\ ~W.ai /\ (\A f \in File : I[f] = <<>>)
+  LET skipAll == pre /\ ~WLai(W) /\ (\A f \in File : I[f] = <<>>)
       fs  == CkFiles(W, I, ht, work, index, reported, pre)
       ne  == [f \in File |-> IF f \in fs THEN CkEnt(D, W.ent[f], I[f], IS[f], ht[f], work[f], kind, a, pre)
                              ELSE W.ent[f]]
-      wrote == \E f \in File : ne[f] # W.ent[f]
-  IN  IF skipAll THEN W
-      ELSE [ent |-> ne, ai |-> W.ai \/ (wrote /\ kind = "ai"),
-            sess |-> IF wrote /\ kind = "ai" THEN W.sess \cup {a} ELSE W.sess]
+  IN  IF skipAll THEN W ELSE [ent |-> ne]
 
 -----------------------------------------------------------------------------
 (* B.2  post_commit.rs / virtual_attribution.rs : three-way split.
@@ -267,29 +269,41 @@ BlameOf(N, T, P, c, W) ==
 
 NoteAt(c, f, n) == At(notes[c].files[f], n)
 Made(c)     == c \in 1..nc
-ByCommit(c) == Made(c) /\ ckind[c] \in {"commit", "amend"}
+\* "commit": made by git commit after nothing but edits, checkpoints and staging
+\* "commit_carry": ... after commands that must carry pending attribution (soft/mixed reset, stash push/pop)
+\* "commit_lossy": ... after commands that may legitimately drop it (hard reset, path checkout, restore)
+PlainCommit(c) == Made(c) /\ ckind[c] = "commit"
+CarryCommit(c) == Made(c) /\ ckind[c] \in {"commit", "commit_carry"}
 NewUid(c, f, n)   == tree[c][f][n][1] \notin UidsOf(TreeOf(par[c])[f])
 GitAdded(c, f, n) == tree[c][f][n] \notin LinesOf(TreeOf(par[c])[f])
+\* the authors that ever wrote (part of) the line: its own and those of the lines it was derived from by "mod"
+RECURSIVE Writers(_)
+Writers(u) == IF u = 0 THEN {} ELSE {truth[u]} \cup Writers(der[u])
 
-\* C01/C04: a line (new uid) added by a commit made with `git commit` is listed for its true author
+\* C01: a line (new uid) added by a plain commit is listed for S iff its last substantive change was by S
 C01_Exact ==
-  \A c \in 1..MaxCommit : ByCommit(c) =>
+  \A c \in 1..MaxCommit : PlainCommit(c) =>
     \A f \in File : \A n \in DOMAIN tree[c][f] :
       NewUid(c, f, n) => NoteAt(c, f, n) = truth[tree[c][f][n][1]]
+\* C02/C04: AI lines survive the carrying commands and partial commits: when finally committed they are listed
+C02_Carried ==
+  \A c \in 1..MaxCommit : CarryCommit(c) =>
+    \A f \in File : \A n \in DOMAIN tree[c][f] :
+      (NewUid(c, f, n) /\ truth[tree[c][f][n][1]] # H) => NoteAt(c, f, n) = truth[tree[c][f][n][1]]
 \* C01: only lines the commit added are listed for it
 C01_OnlyAdded ==
   \A c \in 1..MaxCommit : Made(c) =>
     \A f \in File : \A n \in DOMAIN notes[c].files[f] :
       NoteAt(c, f, n) # H => (n \in DOMAIN tree[c][f] /\ GitAdded(c, f, n))
-\* C03: nothing is credited to a session that did not write it (notes)
+\* C03: nothing is credited to a session that wrote no part of it (notes)
 C03_Notes ==
   \A c \in 1..MaxCommit : Made(c) =>
     \A f \in File : \A n \in DOMAIN notes[c].files[f] :
-      (NoteAt(c, f, n) # H /\ n \in DOMAIN tree[c][f]) => truth[tree[c][f][n][1]] = NoteAt(c, f, n)
+      (NoteAt(c, f, n) # H /\ n \in DOMAIN tree[c][f]) => NoteAt(c, f, n) \in Writers(tree[c][f][n][1])
 \* C03: ... (blame of HEAD)
 C03_Blame ==
   \A f \in File : \A n \in DOMAIN blame[f] :
-    (blame[f][n] # H /\ head # 0 /\ n \in DOMAIN tree[head][f]) => truth[tree[head][f][n][1]] = blame[f][n]
+    (blame[f][n] # H /\ head # 0 /\ n \in DOMAIN tree[head][f]) => blame[f][n] \in Writers(tree[head][f][n][1])
 \* C05: structural well-formedness as projected (flags computed by the independent parser) + line bounds
 C05_WellFormed ==
   \A c \in 1..MaxCommit : (Made(c) /\ notes[c].has) =>
@@ -300,8 +314,9 @@ C05_WellFormed ==
 \* gen mode: the as-built design is required to satisfy a clause wherever no known deviation fired
 Clean(p) == taint # {} \/ p
 
-PropertyNames == {"C01_Exact", "C01_OnlyAdded", "C03_Notes", "C03_Blame", "C05_WellFormed"}
+PropertyNames == {"C01_Exact", "C02_Carried", "C01_OnlyAdded", "C03_Notes", "C03_Blame", "C05_WellFormed"}
 Holds(p) == CASE p = "C01_Exact" -> C01_Exact
+              [] p = "C02_Carried" -> C02_Carried
               [] p = "C01_OnlyAdded" -> C01_OnlyAdded
               [] p = "C03_Notes" -> C03_Notes
               [] p = "C03_Blame" -> C03_Blame
@@ -330,7 +345,7 @@ NG(nwt, nidx, ntree, npar, nck, nnc, nhead) ==
   IF Gen
   THEN [wt |-> nwt, idx |-> nidx, tree |-> ntree, par |-> npar, ckind |-> nck, nc |-> nnc, head |-> nhead]
   ELSE [wt |-> Ev.git.wt, idx |-> Ev.git.idx, tree |-> From1(Ev.git.tree), par |-> From1(Ev.git.par),
-        ckind |-> From1(Ev.git.ckind), nc |-> Ev.git.nc, head |-> Ev.git.head]
+        ckind |-> nck, nc |-> Ev.git.nc, head |-> Ev.git.head]
 GitAdopt(g) ==
   /\ wt' = g.wt /\ idx' = g.idx /\ tree' = g.tree /\ par' = g.par /\ ckind' = g.ckind
   /\ nc' = g.nc /\ head' = g.head
@@ -343,8 +358,8 @@ AiAdopt(g, cwl, cini, cnotes, fired) ==
      THEN /\ wl' = cwl /\ ini' = cini /\ notes' = cnotes
           /\ blame' = BlameOf(cnotes, g.tree, g.par, g.head, g.wt)
           /\ drift' = drift /\ taint' = taint \cup fired
-     ELSE LET ownl == [b \in 0..MaxCommit |-> [ent |-> Ev.obs.wl[b + 1].ent, ai |-> Ev.obs.wl[b + 1].ai,
-                                                 sess |-> SetOf(Ev.obs.wl[b + 1].sess)]]
+     ELSE LET ownl == [b \in 0..MaxCommit |->
+                           [ent |-> [f \in File |-> [Ev.obs.wl[b + 1].ent[f] EXCEPT !.by = SetOf(@)]]]]
               oini == From0(Ev.obs.ini)
               onot == [c \in 1..MaxCommit |-> ObsNote(Ev.obs.notes[c])]
           IN /\ wl' = ownl /\ ini' = oini /\ notes' = onot
@@ -361,11 +376,12 @@ AiAdopt(g, cwl, cini, cnotes, fired) ==
 AiSame(g) == AiAdopt(g, wl, ini, notes, {})
 
 \* bookkeeping common to every step; in trace mode the property clauses are evaluated on the NEXT state
-Step(rec) ==
+Step2(rec, extra) ==
   /\ hist' = IF Gen THEN Append(hist, rec) ELSE hist
   /\ l' = l + 1
   /\ viol' = IF Gen THEN viol
-             ELSE viol \cup { <<l, p>> : p \in { q \in PropertyNames : ~Holds(q)' } }
+             ELSE viol \cup { <<l, p>> : p \in { q \in PropertyNames : ~Holds(q)' } \cup extra }
+Step(rec) == Step2(rec, {})
 
 -----------------------------------------------------------------------------
 (* Actions.  Parameters are explicit; Next draws them (gen), TraceNext reads them from the log. *)
@@ -388,7 +404,7 @@ Edit(who, kind, f, c) ==
   /\ dirty' = [dirty EXCEPT ![f] = who]
   /\ LET g == NG([wt EXCEPT ![f] = c], idx, tree, par, ckind, nc, head)
      IN GitAdopt(g) /\ AiSame(g)
-  /\ UNCHANGED <<stash, snote>>
+  /\ UNCHANGED <<stash, snote, ops>>
   /\ Step([a |-> "Edit", who |-> who, kind |-> kind, f |-> f, c |-> c])
 
 InsAt(c, p, x) == SubSeq(c, 1, p) \o <<x>> \o SubSeq(c, p + 1, Len(c))     \* after position p (0..Len)
@@ -409,19 +425,38 @@ Checkpoint(kind, a, reported) ==
      IN AiAdopt(SameG, [wl EXCEPT ![head] = op(Dev)], ini, notes, FiredDevs(op))
   /\ dirty' = [f \in File |-> IF dirty[f] = a THEN None ELSE dirty[f]]
   /\ GitAdopt(SameG)
-  /\ UNCHANGED <<truth, nu, der, stash, snote>>
+  /\ UNCHANGED <<truth, nu, der, stash, snote, ops>>
   /\ Step([a |-> "Ckpt", kind |-> kind, who |-> a, files |-> reported])
 
 GenCheckpoint ==
   \/ \E s \in Session : Checkpoint("ai", s, { f \in File : dirty[f] = s })
   \/ Checkpoint("human", H, { f \in File : dirty[f] = H })
 
+\* ---- C14: commands that must not change anything git-ai knows: read-only git commands through the wrapper,
+\* and a checkpoint repeated with no intervening change.  C14_Stutter is an action property: it is evaluated
+\* on the observed next state in trace mode.
+StutterViol == IF Gen THEN {}
+               ELSE IF wl' # wl \/ ini' # ini \/ notes' # notes THEN {"C14_Stutter"} ELSE {}
+
+ReadOnly(cmd) ==
+  /\ Guard(NoAgentDirty)
+  /\ GitAdopt(SameG) /\ AiSame(SameG)
+  /\ UNCHANGED <<truth, nu, der, dirty, stash, snote, ops>>
+  /\ Step2([a |-> "ReadOnly", cmd |-> cmd], StutterViol)
+
+\* the same checkpoint again, right after the original one
+CkptRepeat ==
+  /\ Guard(hist # <<>> /\ hist[Len(hist)].a = "Ckpt")
+  /\ GitAdopt(SameG) /\ AiSame(SameG)
+  /\ UNCHANGED <<truth, nu, der, dirty, stash, snote, ops>>
+  /\ Step2([a |-> "CkptRepeat"], StutterViol)
+
 \* ---- staging (not hooked by git-ai): the index copy of f becomes c
 Stage(f, c, kind) ==
   /\ Guard(idx[f] # c /\ NoAgentDirty)
   /\ LET g == NG(wt, [idx EXCEPT ![f] = c], tree, par, ckind, nc, head)
      IN GitAdopt(g) /\ AiSame(g)
-  /\ UNCHANGED <<truth, nu, der, dirty, stash, snote>>
+  /\ UNCHANGED <<truth, nu, der, dirty, stash, snote, ops>>
   /\ Step([a |-> "Stage", f |-> f, c |-> c, kind |-> kind])
 
 PartitionOK == \A f \in File : HunkSubset(HeadTree[f], idx[f], wt[f])
@@ -452,7 +487,10 @@ CommitMech(D, b, nt, preIdx) ==
   LET W1 == CkResult(D, wl[b], ini[b], isnap[b], TreeOf(b), wt, preIdx, "human", H, {}, TRUE)
       sp == [f \in File |-> SplitFile(D, W1.ent[f], ini[b][f], TreeOf(b)[f], nt[f], wt[f])]
   IN  [nf |-> [f \in File |-> sp[f].note], ni |-> [f \in File |-> sp[f].ini],
-       sess |-> W1.sess \cup SessionsIn(ini[b])]
+       sess |-> WLsess(W1) \cup SessionsIn(ini[b])]
+
+LossyOps == {"reset_hard", "discard"}
+CommitKind == IF ops = {} THEN "commit" ELSE IF ops \cap LossyOps = {} THEN "commit_carry" ELSE "commit_lossy"
 
 Commit(mode, F) ==
   LET nt  == CommitTree(mode, F)
@@ -464,13 +502,14 @@ Commit(mode, F) ==
   /\ Guard(c <= MaxCommit /\ nt # HeadTree /\ NoAgentDirty)
   /\ LET res == op(Dev)
          anyIni == \E f \in File : res.ni[f] # <<>>
-         g == NG(wt, nix, [tree EXCEPT ![c] = nt], [par EXCEPT ![c] = b], [ckind EXCEPT ![c] = "commit"], c, c)
+         g == NG(wt, nix, [tree EXCEPT ![c] = nt], [par EXCEPT ![c] = b], [ckind EXCEPT ![c] = CommitKind], c, c)
      IN /\ GitAdopt(g)
         /\ AiAdopt(g, [wl EXCEPT ![b] = EmptyWL],
                    [ini EXCEPT ![b] = NoMaps, ![c] = IF anyIni THEN res.ni ELSE ini[c]],
                    [notes EXCEPT ![c] = MkNote(res.nf, res.sess)],
                    FiredDevs(op))
   /\ dirty' = [f \in File |-> IF nt[f] = wt[f] THEN None ELSE dirty[f]]
+  /\ ops' = {}
   /\ UNCHANGED <<truth, nu, der, stash, snote>>
   /\ Step([a |-> "Commit", mode |-> mode, files |-> F])
 
@@ -480,6 +519,116 @@ GenCommit ==
   \/ "commit_paths" \in Alphabet /\ \E f \in File : wt[f] # HeadTree[f] /\ Commit("paths", {f})
 
 -----------------------------------------------------------------------------
+(* Destructive and state-moving commands (reset, checkout/restore of paths, stash).
+   What git-ai "knows" about a line of the work tree: pending knowledge (working log entry or INITIAL,
+   carried by content) first, committed knowledge (blame overlay of the base commit) second. *)
+
+PendAuthor(b, f, u) ==
+  LET e == wl[b].ent[f]
+  IN  IF e.vaset
+      THEN IF u \in UidsOf(e.snap) THEN At(e.va, PosOfUid(e.snap, u)) ELSE H
+      ELSE IF u \in UidsOf(isnap[b][f]) THEN At(ini[b][f], PosOfUid(isnap[b][f], u)) ELSE H
+\* committed knowledge follows the line by content, indentation aside
+CommAuthor(c, f, x) ==
+  IF c # 0 /\ x[1] \in UidsOf(tree[c][f]) THEN BlameLine(notes, tree, par, c, f, PosOfUid(tree[c][f], x[1])) ELSE H
+Known(b, f, x) == IF PendAuthor(b, f, x[1]) # H THEN PendAuthor(b, f, x[1]) ELSE CommAuthor(b, f, x)
+\* pending claims for content c of file f on top of commit `onto`: every line not in onto's tree keeps what is known
+CarryTo(b, onto, f, c) ==
+  Trim([n \in 1..Len(c) |-> IF c[n] \notin LinesOf(TreeOf(onto)[f]) THEN Known(b, f, c[n]) ELSE H])
+PendingMap(b, f, c) == Trim([n \in 1..Len(c) |-> PendAuthor(b, f, c[n][1])])
+
+PreCk(D, b) == CkResult(D, wl[b], ini[b], isnap[b], TreeOf(b), wt, idx, "human", H, {}, TRUE)
+
+\* ---- git reset --hard [target]   (target = HEAD or its parent)
+ResetHard(target) ==
+  /\ Guard(head # 0 /\ target \in {head, par[head]} /\ target # 0 /\ NoAgentDirty)
+  /\ LET g == NG(tree[target], tree[target], tree, par, ckind, nc, target)
+     IN /\ GitAdopt(g)
+        /\ AiAdopt(g, [wl EXCEPT ![head] = EmptyWL], [ini EXCEPT ![head] = NoMaps], notes, {})
+  /\ dirty' = [f \in File |-> None]
+  /\ ops' = ops \cup {"reset_hard"}
+  /\ UNCHANGED <<truth, nu, der, stash, snote>>
+  /\ Step([a |-> "ResetHard", target |-> target])
+
+\* ---- git reset --soft|--mixed <parent of HEAD>   (undo the last commit, keep the work tree)
+ResetKeepMech(D, old, target) ==
+  LET W1 == PreCk(D, old)
+      wlx == [wl EXCEPT ![old] = W1]
+  IN  [f \in File |-> Trim([n \in 1..Len(wt[f]) |->
+          IF wt[f][n] \notin LinesOf(TreeOf(target)[f])
+          THEN LET u == wt[f][n][1]
+                   e == W1.ent[f]
+                   p == IF e.vaset THEN (IF u \in UidsOf(e.snap) THEN At(e.va, PosOfUid(e.snap, u)) ELSE H)
+                        ELSE (IF u \in UidsOf(isnap[old][f]) THEN At(ini[old][f], PosOfUid(isnap[old][f], u)) ELSE H)
+               IN IF p # H THEN p ELSE CommAuthor(old, f, wt[f][n])
+          ELSE H])]
+
+ResetKeep(mode, target) ==
+  /\ Guard(head # 0 /\ target = par[head] /\ target # 0 /\ NoAgentDirty)
+  /\ LET g == NG(wt, IF mode = "soft" THEN idx ELSE tree[target], tree, par, ckind, nc, target)
+         op(D) == ResetKeepMech(D, head, target)
+     IN /\ GitAdopt(g)
+        /\ AiAdopt(g, [wl EXCEPT ![head] = EmptyWL, ![target] = EmptyWL],
+                      [ini EXCEPT ![head] = NoMaps, ![target] = op(Dev)], notes, FiredDevs(op))
+  /\ dirty' = [f \in File |-> IF wt[f] # tree[target][f] THEN H ELSE None]
+  /\ ops' = ops \cup {"reset_keep"}
+  /\ UNCHANGED <<truth, nu, der, stash, snote>>
+  /\ Step([a |-> "ResetKeep", mode |-> mode, target |-> target])
+
+\* ---- git checkout -- F  (hooked: pending attribution of F is dropped)   /   git restore F  (not hooked)
+DiscardPaths(F, how) ==
+  /\ Guard(head # 0 /\ F # {} /\ (\E f \in F : wt[f] # idx[f]) /\ NoAgentDirty)
+  /\ LET g == NG([f \in File |-> IF f \in F THEN idx[f] ELSE wt[f]], idx, tree, par, ckind, nc, head)
+     IN /\ GitAdopt(g)
+        /\ IF how = "checkout"
+           THEN AiAdopt(g, [wl EXCEPT ![head].ent = [f \in File |-> IF f \in F THEN EmptyEnt ELSE @[f]]],
+                           [ini EXCEPT ![head] = [f \in File |-> IF f \in F THEN <<>> ELSE @[f]]], notes, {})
+           ELSE AiSame(g)
+  \* content changed behind git-ai's back: a human checkpoint must precede the next agent edit (agent protocol)
+  /\ dirty' = [f \in File |-> IF f \in F THEN H ELSE dirty[f]]
+  /\ ops' = ops \cup {"discard"}
+  /\ UNCHANGED <<truth, nu, der, stash, snote>>
+  /\ Step([a |-> "Discard", files |-> F, how |-> how])
+
+\* ---- git stash push (everything) / git stash pop   (one stash slot is enough for the properties)
+StashPush ==
+  /\ Guard(head # 0 /\ stash = <<>> /\ (wt # HeadTree \/ idx # HeadTree) /\ NoAgentDirty
+           /\ \A f \in File : HeadTree[f] # EmptyC \/ idx[f] # EmptyC \/ wt[f] = EmptyC)   \* no untracked files
+  /\ LET g == NG(HeadTree, HeadTree, tree, par, ckind, nc, head)
+         op(D) == LET W1 == PreCk(D, head)
+                  IN [sn |-> [f \in File |-> IF W1.ent[f].vaset THEN W1.ent[f].va ELSE ini[head][f]], w |-> W1]
+         r == op(Dev)
+         had == { f \in File : r.sn[f] # <<>> }
+     IN /\ GitAdopt(g)
+        /\ snote' = << r.sn >>
+        /\ AiAdopt(g, [wl EXCEPT ![head] = r.w],
+                      [ini EXCEPT ![head] = [f \in File |-> IF f \in had THEN <<>> ELSE @[f]]], notes, FiredDevs(op))
+  /\ stash' = << [wt |-> wt, idx |-> idx, base |-> head] >>
+  /\ dirty' = [f \in File |-> IF wt[f] # HeadTree[f] THEN H ELSE None]
+  /\ ops' = ops \cup {"stash"}
+  /\ UNCHANGED <<truth, nu, der>>
+  /\ Step([a |-> "StashPush"])
+
+StashPop ==
+  /\ Guard(stash # <<>> /\ head = stash[1].base /\ wt = HeadTree /\ idx = HeadTree /\ NoAgentDirty)
+  /\ LET g == NG(stash[1].wt, idx, tree, par, ckind, nc, head)
+         any == \E f \in File : snote[1][f] # <<>>
+     IN /\ GitAdopt(g)
+        /\ AiAdopt(g, wl, [ini EXCEPT ![head] = IF any THEN snote[1] ELSE @], notes, {})
+  /\ stash' = <<>> /\ snote' = <<>>
+  /\ dirty' = [f \in File |-> IF stash[1].wt[f] # wt[f] THEN H ELSE dirty[f]]
+  /\ ops' = ops \cup {"stash"}
+  /\ UNCHANGED <<truth, nu, der>>
+  /\ Step([a |-> "StashPop"])
+
+GenDestructive ==
+  \/ "reset_hard" \in Alphabet /\ \E t \in {head, IF head = 0 THEN 0 ELSE par[head]} : ResetHard(t)
+  \/ "reset_keep" \in Alphabet /\ head # 0 /\ \E m \in {"soft", "mixed"} : ResetKeep(m, par[head])
+  \/ "checkout_paths" \in Alphabet /\ \E f \in File : DiscardPaths({f}, "checkout")
+  \/ "restore" \in Alphabet /\ \E f \in File : DiscardPaths({f}, "restore")
+  \/ "stash" \in Alphabet /\ (StashPush \/ StashPop)
+
+-----------------------------------------------------------------------------
 (* Initial states *)
 
 NoTrees == [c \in 1..MaxCommit |-> AllEmpty]
@@ -487,7 +636,7 @@ BaseTree == [f \in File |-> IF f = F0 THEN << <<1, 0>>, <<2, 0>> >> ELSE EmptyC]
 
 InitCommon ==
   /\ stash = <<>> /\ snote = <<>>
-  /\ dirty = [f \in File |-> None]
+  /\ dirty = [f \in File |-> None] /\ ops = {}
   /\ wl = [b \in 0..MaxCommit |-> EmptyWL]
   /\ ini = [b \in 0..MaxCommit |-> NoMaps]
   /\ isnap = [b \in 0..MaxCommit |-> AllEmpty]
@@ -517,6 +666,9 @@ Next ==
      \/ "ckpt" \in Alphabet /\ GenCheckpoint
      \/ GenStage
      \/ GenCommit
+     \/ GenDestructive
+     \/ "readonly" \in Alphabet /\ \E c \in {"status", "log", "diff"} : ReadOnly(c)
+     \/ "ckpt_repeat" \in Alphabet /\ CkptRepeat
 
 Spec == Init /\ [][Next]_vars
 
@@ -541,7 +693,7 @@ TrReset ==
              /\ truth' = [u \in 1..MaxUid |-> None] /\ nu' = 1
   /\ par' = [c \in 1..MaxCommit |-> 0] /\ der' = [u \in 1..MaxUid |-> 0]
   /\ stash' = <<>> /\ snote' = <<>>
-  /\ dirty' = [f \in File |-> None]
+  /\ dirty' = [f \in File |-> None] /\ ops' = {}
   /\ wl' = [b \in 0..MaxCommit |-> EmptyWL]
   /\ ini' = [b \in 0..MaxCommit |-> NoMaps]
   /\ isnap' = [b \in 0..MaxCommit |-> AllEmpty]
@@ -555,9 +707,20 @@ TrCkpt   == IsEv("Ckpt") /\ Checkpoint(Ev.kind, Ev.who, SetOf(Ev.files))
 TrAdd    == IsEv("Stage") /\ Stage(Ev.f, Ev.c, Ev.kind)
 TrCommit == IsEv("Commit") /\ Commit(Ev.mode, SetOf(Ev.files))
 
+TrResetHard == IsEv("ResetHard") /\ ResetHard(Ev.target)
+TrResetKeep == IsEv("ResetKeep") /\ ResetKeep(Ev.mode, Ev.target)
+TrDiscard   == IsEv("Discard") /\ DiscardPaths(SetOf(Ev.files), Ev.how)
+TrStashPush == IsEv("StashPush") /\ StashPush
+TrStashPop  == IsEv("StashPop") /\ StashPop
+
+TrReadOnly   == IsEv("ReadOnly") /\ ReadOnly(Ev.cmd)
+TrCkptRepeat == IsEv("CkptRepeat") /\ CkptRepeat
+
 TraceNext ==
   /\ ~Gen
-  /\ \/ TrReset \/ TrEdit \/ TrCkpt \/ TrAdd \/ TrCommit
+  /\ \/ TrReadOnly \/ TrCkptRepeat
+     \/ TrReset \/ TrEdit \/ TrCkpt \/ TrAdd \/ TrCommit
+     \/ TrResetHard \/ TrResetKeep \/ TrDiscard \/ TrStashPush \/ TrStashPop
 
 TraceSpec == Init /\ [][TraceNext]_vars
 
